@@ -56,7 +56,7 @@ CHECKS['C18'] = dict(
          'helper method to the same function as HtmlRenderer (covers the MathJax double-inheritance MRO), and their '
          'token lists differ only by the extension token; in the model the rendering functions are shared and the '
          'output is the HTML output plus the MathJax script suffix. Each real contrib renderer is compared byte for '
-         'byte with the model, and with the real HtmlRenderer on inputs meeting the side condition. At TEXT level (Props/C18_Text.lean): for every text without "[[" the GithubWiki renderer, for every text without "$" the MathJax renderer (plus its script line), and for every text the Toc renderer parse to the same document as and produce exactly the output of HtmlRenderer - the span resolver never reads a class index, the extension token finds nothing, and no inline string the constructors tokenize can contain a trigger the text lacks (an invariant through the whole block phase).',
+         'byte with the model, and with the real HtmlRenderer on inputs meeting the side condition. At TEXT level (Props/C18_Text.lean): for every text without "[[" the GithubWiki renderer, for every text without "$" the MathJax renderer (plus its script line), and for every text the Toc renderer parse to the same document as and produce exactly the output of HtmlRenderer - the span resolver never reads a class index, the extension token finds nothing, and no inline string the constructors tokenize can contain a trigger the text lacks (an invariant through the whole block phase). For the GithubWiki renderer the hypothesis is the property\'s own (Props/C18_NoMatch.lean): the pattern [[..|..]] matches nowhere in the text.',
     note='Trusted: Lean kernel (no axioms beyond propext/Quot.sound/Classical.choice); introspection translator; '
          'correspondence harness. Pygments is not modelled (compared only without code blocks).',
     technique='Lean 4 proof (`decide` over regenerated method-resolution/token tables; relabelling-invariance of the span resolver and a trigger-free invariant through the block phase for the parse equality) + renderer correspondence + direct differential of the real renderers',
